@@ -95,9 +95,9 @@ def classes_for(focus):
     c01 = ["valid", "valid_multi", "missing_output", "spent_on_branch", "other_fork_output", "dup_ref_in_tx",
            "dup_ref_across_txs", "null_ref", "wrong_key_sig", "wrong_key_sig_first_of_two", "wrong_key_sig_last_of_two",
            "outputs_edited", "refs_edited", "placeholder_sig", "known_header_swapped_body",
-           "coinbasedata_sig", "bad_curve_point", "intra_block_spend", "dup_tx"]
+           "coinbasedata_sig", "bad_curve_point", "intra_block_spend", "dup_tx", "valid_many_inputs", "wrong_key_sig_many"]
     c02 = ["valid", "valid_multi", "reward_plus1", "reward_exact_fees", "reward_minus1", "reward_prev_era", "fees_wrong_state",
-           "reward_split_exact", "reward_split_plus1", "reward_split_big",
+           "reward_split_exact", "reward_split_plus1", "reward_split_big", "reward_wrap64",
            "zero_output", "max_output", "over_max_output", "u64_output", "total_over_max", "overspend_by_1",
            "reward_no_fee_tx", "known_header_swapped_body",
            # one output paid out twice within a block creates value just as an inflated reward does
@@ -109,7 +109,7 @@ def classes_for(focus):
     return {"C01": c01, "C02": c02, "C05": c05, "all": sorted(set(c01 + c02 + c05))}[focus]
 
 
-EXPECT_VALID = {"prelude_valid", "valid", "valid_multi", "reward_exact_fees", "reward_minus1", "max_output", "ts_future_30",
+EXPECT_VALID = {"prelude_valid", "valid", "valid_multi", "valid_many_inputs", "reward_exact_fees", "reward_minus1", "max_output", "ts_future_30",
                 "reward_split_exact"}
 # classes whose verdict depends on the sampled data (not asserted by the monitor, only compared)
 UNDETERMINED = {"ev_other_fork", "fees_wrong_state"}
@@ -202,6 +202,22 @@ def make_candidate(cr, klass, parent_hash, now_holder):
         owner = keys.index_of(o.public_key.public_key)
         bad = chain.make_tx(keys, utxo, [r], [(o.value, 0)], signer_override={0: (owner + 1) % len(keys.pks)})
         return cr.craft(parent_hash, others=[bad]), now
+    if klass in ("valid_many_inputs", "wrong_key_sig_many"):
+        # a spend that sweeps up many outputs at once (16 … 40 inputs): correctly signed, or with one input — or every input —
+        # signed by a key that does not own the output spent
+        sp = [(r, o) for r, o in t.spendable(parent_hash) if o.value > 0]
+        if len(sp) < 16:
+            return None
+        rng.shuffle(sp)
+        k = rng.choice([16, 17, 20, 32, 33, 40])
+        chosen = sp[:min(k, len(sp))]
+        total = sum(o.value for _, o in chosen)
+        override = None
+        if klass == "wrong_key_sig_many":
+            wrong = list(range(len(chosen))) if rng.random() < 0.4 else [rng.randrange(0, len(chosen))]
+            override = {i: (keys.index_of(chosen[i][1].public_key.public_key) + 1) % len(keys.pks) for i in wrong}
+        tx = chain.make_tx(keys, utxo, [r for r, _ in chosen], [(total - 1, 0)], signer_override=override)
+        return cr.craft(parent_hash, others=[tx]), now
     if klass in ("wrong_key_sig_first_of_two", "wrong_key_sig_last_of_two"):
         sp = t.spendable(parent_hash)
         if len(sp) < 2:
@@ -294,6 +310,18 @@ def make_candidate(cr, klass, parent_hash, now_holder):
             return cr.craft(parent_hash, txs=[cb] + others), now
         d = 0 if klass == "reward_split_exact" else 1
         return cr.craft(parent_hash, others=others, reward_delta=d, split=k), now
+    if klass == "reward_wrap64":
+        # amounts as 64-bit patterns on the wire: a reward whose outputs add up to the allowed amount modulo 2^64 (or when the
+        # top bit is read as a sign)
+        others = t.random_txs(parent_hash, rng.randrange(0, 2))
+        h = parent.height + 1
+        lim = chain.subsidy(h) + fees_of(others, utxo)
+        x = rng.choice([1, 5, 2 ** 62, 2 ** 63 - lim - 1, 2 ** 63 - lim, 2 ** 63])
+        vals = [(lim + x) % 2 ** 64, 2 ** 64 - x]
+        if rng.random() < 0.3:
+            vals.reverse()
+        cb = chain.wire_transaction([Input(NULLREF, CoinbaseData(h, b""))], [(v, keys.pk(i)) for i, v in enumerate(vals)])
+        return cr.craft(parent_hash, txs=[cb] + others), now
     if klass == "reward_no_fee_tx":
         tx = t.random_tx(parent_hash, fee_choices=(1000, 5000))
         if tx is None:
@@ -607,69 +635,83 @@ def run_ledger(ctx, focus, res=None):
     n_trees = ctx.scale(3, 14)
     per_tree = ctx.scale(90, 360)
     classes = classes_for(focus)
-    for ti in range(n_trees):
-        cfg = ti % 3
-        if cfg == 0:
-            lines = chain.patch(horizon=-1, halving=5)      # several subsidy eras within a short tree
-        elif cfg == 1:
-            lines = chain.patch(horizon=-1, interval=6, timespan=6 * 120)
-        else:
-            lines = chain.patch(horizon=2)          # blocks on both sides of the horizon
-        for attempt in range(6):
-            rivals_made = False
+    for ti in range(n_trees + 1):
+        tall = (ti == n_trees)
+        if tall:
+            # one tall chain per run: several hundred blocks (more than any depth or count constant of the code), production
+            # constants, an easy target; candidates are offered on ancestors hundreds of blocks behind the head as well as near it,
+            # and spends sweep up dozens of outputs at once
+            lines = chain.patch(horizon=-1)
+            cfg = 3
             keys = chain.Keys(rng, 5)
-            use_custom = (ti % 2 == 1)
-            genesis = chain.custom_genesis(keys, target=bytes([0x3f]) + b"\xff" * 31) if use_custom else None
-            tree = chain.Tree(rng, keys, genesis=genesis)
-            # an output paying a key that is not a curve point (spendable by nobody; class bad_curve_point)
-            tree.grow(rng.randrange(5, 12), fork_prob=0.35)
-            sp = tree.spendable(tree.cs.current_chain_hash)
-            if sp:
-                r, o = sp[0]
-                if o.value > 10:
-                    tx = chain.make_tx(keys, tree.utxo(tree.cs.current_chain_hash), [r],
-                                       [(o.value - 10, 0), (5, chain.GARBAGE_KEYS[0]), (5, chain.GARBAGE_KEYS[1])])
-                    tree.extend(txs=[tx])
-            tree.grow(rng.randrange(4, 10), fork_prob=0.4)
-            if cfg == 1:
-                # a side branch that diverges before the start of a retarget period and runs up to the next boundary, with
-                # timestamps that differ from the main chain's: the boundary block on the branch that is not the head must
-                # get the target prescribed by its own ancestors
-                base = tree.blocks[min(2, len(tree.blocks) - 1)]
-                mainh = tree.cs.head().height
-                I = consensus.BLOCKS_BETWEEN_TARGET_READJUSTMENT
-                goal = ((base.height // I) + 2) * I - 1          # last block before a boundary, a full period past the fork
-                while tree.cs.head().height < goal + 2:
-                    tree.extend(n_tx=0, dt=rng.randrange(100, 140))
-                h = base.hash()
-                for _ in range(goal - base.height):
-                    h = tree.extend(h, n_tx=0, dt=rng.randrange(20, 60)).hash()
-                deep_side_tip = h
+            tree = chain.Tree(rng, keys, genesis=chain.custom_genesis(keys, target=b"\xff" * 32))
+            cur_ = tree.blocks[0]
+            for _ in range(548 + rng.randrange(0, 12)):
+                cur_ = tree.extend(cur_.hash(), n_tx=(1 if cur_.height % 37 == 5 else 0), dt=120, data_len=0)
+            rivals_made, deep_side_tip, through_store, use_custom = False, None, False, True
+        else:
+            cfg = ti % 3
+            if cfg == 0:
+                lines = chain.patch(horizon=-1, halving=5)      # several subsidy eras within a short tree
+            elif cfg == 1:
+                lines = chain.patch(horizon=-1, interval=6, timespan=6 * 120)
             else:
-                deep_side_tip = None
-            through_store = (not use_custom) and (ti % 4 == 2 or (ctx.thorough and ti % 4 == 0))
-            if through_store:
-                # two competing blocks that spend one and the same output in different transactions, and more blocks on each
-                tip = tree.cs.current_chain_hash
-                sp_ = [(r, o) for r, o in tree.spendable(tip) if o.value >= 2]     # (zero-valued outputs exist below a horizon)
-                if sp_:
-                    r_, o_ = sp_[-1]
-                    u_ = tree.utxo(tip)
-                    ta = chain.make_tx(keys, u_, [r_], [(o_.value, 1)])
-                    tb = chain.make_tx(keys, u_, [r_], [(o_.value, 2)])
-                    a_ = tree.extend(tip, txs=[ta])
-                    b_ = tree.extend(tip, txs=[tb])
-                    tree.extend(a_.hash(), n_tx=0)
-                    tree.extend(b_.hash(), n_tx=0)
-                    tree.extend(b_.hash(), n_tx=0)
-                    rivals_made = True
-            ids_ = [t.hash() for b in tree.blocks for t in b.transactions]
-            if not through_store or len(set(ids_)) == len(ids_):
-                break
-            res.count("tree_rebuilt_because_one_transaction_is_in_two_blocks")
+                lines = chain.patch(horizon=2)          # blocks on both sides of the horizon
+            for attempt in range(6):
+                rivals_made = False
+                keys = chain.Keys(rng, 5)
+                use_custom = (ti % 2 == 1)
+                genesis = chain.custom_genesis(keys, target=bytes([0x3f]) + b"\xff" * 31) if use_custom else None
+                tree = chain.Tree(rng, keys, genesis=genesis)
+                # an output paying a key that is not a curve point (spendable by nobody; class bad_curve_point)
+                tree.grow(rng.randrange(5, 12), fork_prob=0.35)
+                sp = tree.spendable(tree.cs.current_chain_hash)
+                if sp:
+                    r, o = sp[0]
+                    if o.value > 10:
+                        tx = chain.make_tx(keys, tree.utxo(tree.cs.current_chain_hash), [r],
+                                           [(o.value - 10, 0), (5, chain.GARBAGE_KEYS[0]), (5, chain.GARBAGE_KEYS[1])])
+                        tree.extend(txs=[tx])
+                tree.grow(rng.randrange(4, 10), fork_prob=0.4)
+                if cfg == 1:
+                    # a side branch that diverges before the start of a retarget period and runs up to the next boundary, with
+                    # timestamps that differ from the main chain's: the boundary block on the branch that is not the head must
+                    # get the target prescribed by its own ancestors
+                    base = tree.blocks[min(2, len(tree.blocks) - 1)]
+                    mainh = tree.cs.head().height
+                    I = consensus.BLOCKS_BETWEEN_TARGET_READJUSTMENT
+                    goal = ((base.height // I) + 2) * I - 1          # last block before a boundary, a full period past the fork
+                    while tree.cs.head().height < goal + 2:
+                        tree.extend(n_tx=0, dt=rng.randrange(100, 140))
+                    h = base.hash()
+                    for _ in range(goal - base.height):
+                        h = tree.extend(h, n_tx=0, dt=rng.randrange(20, 60)).hash()
+                    deep_side_tip = h
+                else:
+                    deep_side_tip = None
+                through_store = (not use_custom) and (ti % 4 == 2 or (ctx.thorough and ti % 4 == 0))
+                if through_store:
+                    # two competing blocks that spend one and the same output in different transactions, and more blocks on each
+                    tip = tree.cs.current_chain_hash
+                    sp_ = [(r, o) for r, o in tree.spendable(tip) if o.value >= 2]     # (zero-valued outputs exist below a horizon)
+                    if sp_:
+                        r_, o_ = sp_[-1]
+                        u_ = tree.utxo(tip)
+                        ta = chain.make_tx(keys, u_, [r_], [(o_.value, 1)])
+                        tb = chain.make_tx(keys, u_, [r_], [(o_.value, 2)])
+                        a_ = tree.extend(tip, txs=[ta])
+                        b_ = tree.extend(tip, txs=[tb])
+                        tree.extend(a_.hash(), n_tx=0)
+                        tree.extend(b_.hash(), n_tx=0)
+                        tree.extend(b_.hash(), n_tx=0)
+                        rivals_made = True
+                ids_ = [t.hash() for b in tree.blocks for t in b.transactions]
+                if not through_store or len(set(ids_)) == len(ids_):
+                    break
+                res.count("tree_rebuilt_because_one_transaction_is_in_two_blocks")
         if rivals_made:
             res.count("rival_spends_on_two_branches")
-        res.count("config:%s" % ["production", "retarget-6", "horizon-2"][cfg])
+        res.count("config:%s" % ["production", "retarget-6", "horizon-2", "tall"][cfg])
         res.count("blocks_in_trees", len(tree.blocks))
         cr = Crafter(tree)
         horizon = consensus.MAX_KNOWN_HASH_HEIGHT
@@ -735,12 +777,14 @@ def run_ledger(ctx, focus, res=None):
         for b in model_order:
             ops.append("addnv t t " + hx(b.serialize()))
             impl.append("ok")
-        ops.append("digest t full")
-        impl.append(chain.state_digest(base))
+        ops.append("digest t full" if not tall else "digest t light")      # (balances at every block: cubic for a tall chain)
+        impl.append(chain.state_digest(base, full=not tall))
         cands = []
-        for k in range(per_tree):
-            klass = classes[(k + ti) % len(classes)] if rng.random() < 0.8 else rng.choice(classes)
+        for k in range(per_tree if not tall else max(len(classes) * 2, 48)):
+            klass = classes[(k + ti) % len(classes)] if rng.random() < 0.8 or tall else rng.choice(classes)
             parent_hash = rng.choice(tree.blocks[-8:]).hash() if rng.random() < 0.7 else rng.choice(tree.blocks).hash()
+            if tall and k % 2 == 0:
+                parent_hash = rng.choice(tree.blocks[2:45]).hash()      # far behind the head
             if deep_side_tip is not None and klass in ("stale_target", "target_plus1", "target_minus1", "valid",
                                                          "valid_multi") and rng.random() < 0.5:
                 parent_hash = deep_side_tip
@@ -777,6 +821,7 @@ def run_ledger(ctx, focus, res=None):
                 cands.append(("prelude_valid", pb, now))
             cands.append((klass, blk, now))
         sig_mark = 0
+        tall_digests = 0
         for klass, blk, now in cands:
             before = chain.state_digest(base, full=False)
             try:
@@ -800,9 +845,14 @@ def run_ledger(ctx, focus, res=None):
             res.case(ser, nontrivial=True)
             res.count("class:" + klass)
             res.count("verdict:" + verdict)
-            if verdict == "ok":
+            if verdict == "ok" and tall:
+                tall_digests += 1
+            if verdict == "ok" and (not tall or tall_digests <= 3):     # (the digest of a tall state is quadratic in the model)
                 ops.append("digest x light")
-                impl.append(chain.state_digest(after_state, full=False))
+                try:
+                    impl.append(chain.state_digest(after_state, full=False))
+                except Exception as e:      # a state the digest cannot express (an amount outside 0 … 2^64 - 1, say)
+                    impl.append("no digest: %r" % e)
             if verdict == "ok" and blk.height <= horizon:
                 res.count("accepted-below-horizon")
             elif verdict == "ok":
